@@ -90,12 +90,23 @@ fn special_run(r: &mut Rng) -> Option<(Vec<Doc>, Option<u64>, bool)> {
             if r.chance(1, 2) { tests.push(T { kind: *r.pick(&['P', 'O', 'E']), code: 2, inline_skip: None }); }
             Some((vec![Doc { cram: false, role: 'm', docskip: None, total_ms: Some(800), tests, fileno: 0 }], Some(0), false))
         }
+        3 => {
+            // a limit beyond what the clock can express (2^64 - 1 seconds): no limit, and no panic -- on the command line, over Markdown
+            // and Cram documents with quick test cases of every outcome
+            let mut docs = vec![];
+            for i in 0..r.range(1, 2) {
+                let cram = r.chance(1, 2);
+                let tests = (0..r.range(1, 3)).map(|_| match r.below(4) { 0 => T { kind: 'O', code: 0, inline_skip: None }, 1 => T { kind: 'E', code: *r.pick(&[1, 2]), inline_skip: None }, _ => T { kind: 'P', code: 0, inline_skip: None } }).collect();
+                docs.push(Doc { cram, role: 'm', docskip: None, total_ms: None, tests, fileno: i });
+            }
+            Some((docs, Some(u64::MAX), false))
+        }
         1 | 2 => {
             // Markdown documents run as ONE script each (--cram-compat); skip codes set per test case (the same on all of them) or per document
             let mut docs = vec![];
             for i in 0..r.range(1, 2) {
                 let inline = if r.chance(1, 2) { Some(*r.pick(&[5, 9])) } else { None };
-                let docskip = if r.chance(1, 3) { Some(*r.pick(&[3, 7])) } else { None };
+                let docskip = if r.chance(1, 3) { Some(*r.pick(&[3, 7, 0])) } else { None };
                 let n = r.range(1, 4);
                 let mut tests = vec![];
                 for _ in 0..n {
@@ -272,6 +283,20 @@ pub fn main(args: &[String], w: &mut dyn Write) {
     let base = PathBuf::from(std::env::var("SVH_WORK").expect("SVH_WORK"));
     let mut r = Rng::new(seed.wrapping_add(shard * 32452843));
     let n = (count + nsh - 1 - shard) / nsh;
+    if shard == 0 {
+        // STDOUT cannot be written to (a full device): scrut cannot report the result -- exit status 1, not a panic (101)
+        for (name, body) in [("fails", "```scrut\n$ echo a\nb\n```\n"), ("passes", "```scrut\n$ echo a\na\n```\n")] {
+            let dir = tempfile::Builder::new().prefix("cli.").tempdir_in(&base).unwrap();
+            let tmpdir = dir.path().join("tmp"); std::fs::create_dir_all(&tmpdir).unwrap();
+            std::fs::write(dir.path().join("doc.md"), body).unwrap();
+            let code = match std::fs::OpenOptions::new().write(true).open("/dev/full") {
+                Ok(full) => Command::new(&scrut).current_dir(dir.path()).env("TMPDIR", &tmpdir).env("NO_COLOR", "1").args(["test", "--log-level", "error", "doc.md"])
+                    .stdout(full).stderr(std::process::Stdio::null()).status().ok().and_then(|s| s.code()).unwrap_or(-1),
+                Err(_) => 1,   // no such device here: nothing to observe
+            };
+            writeln!(w, "R !stdout-unwritable:{}|exit={}", name, code).unwrap();
+        }
+    }
     for _ in 0..n {
         let (docs, ct, compat) = gen_run(&mut r);
         writeln!(w, "{}", run(&docs, ct, compat, &scrut, &base)).unwrap();
